@@ -36,7 +36,18 @@ def gen_gate_cases(ctx):
             if kind == "CNOT" and len(rest) < 1: continue
             if kind == "Toffoli" and len(rest) < 2: continue
             k = 1 if kind == "CNOT" else 2 if kind == "Toffoli" else rng.randrange(0, min(4, len(rest) + 1))
-            add(kind, n, ts, rng.sample(rest, k))
+            cs = rng.sample(rest, k)
+            if cs and kind not in ("CNOT", "Toffoli") and rng.random() < 0.15:       # a control listed twice: the same control on every path
+                cs = cs + [rng.choice(cs)]; rng.shuffle(cs)
+            add(kind, n, ts, cs, style=rng.choice(["generic", "generic", "generic", "tiny", "mixed"]))
+    # every kind with a repeated control (accepted as the same control), both paths / all pools
+    for kind in KINDS:
+        if kind in ("CNOT", "Toffoli"): continue
+        for n in (4, 5):
+            con = [p for p in placements(n, kind) if len(p[1]) in (1, 2)]
+            ts, cs = rng.choice(con)
+            for cs2 in ([cs[0]] * 2 + list(cs[1:]), list(cs) + [cs[-1]], [cs[0]] + list(cs) + [cs[0]]):
+                add(kind, n, list(ts), cs2)
     # invalid arguments too: the error value must be the same on both paths (SWAP with a repeated target: the
     # HashSet and the nested-loop duplicate detection)
     for n in (2, 3, 4):
